@@ -414,15 +414,20 @@ def run(ctx):
         cases.append({'kind': 'weights', 'n': n, 'ms': list(range(1, n + 1))})
     for n in range(41, 201):
         ms = sorted(set([1, 2, n // 2, n - 1, n]))
-        if not ctx.quick and n <= 100:
+        if not ctx.quick:
             ms = list(range(1, n + 1))
         cases.append({'kind': 'weights', 'n': n, 'ms': ms})
-    ctx.note('n<=40: every (m,h,j); 41<=n<=200: m lattice {1,2,n/2,n-1,n} (thorough: every m for n<=100)')
+    ctx.note('n<=40: every (m,h,j); 41<=n<=200: m lattice {1,2,n/2,n-1,n} (thorough: every m for every n<=200, i.e. the whole stated domain)')
     # B
     shapes = [(2,), (3,), (5,), (40,)]
     shapes += [s for s in itertools.product((2, 3, 5), repeat=2)]
     shapes += [(2, 3, 5), (5, 3, 2), (3, 3, 3)]
     shapes += [(2, 3, 2, 3), (3, 2, 5, 2)]
+    if not ctx.quick:
+        shapes += [(n,) for n in (1, 4, 6, 7, 8, 9, 10, 11, 12, 20)]
+        shapes += [(7, 2), (2, 7), (7, 7), (8, 5), (1, 6), (6, 1), (10, 3)]
+        shapes += [(4, 4, 4), (2, 5, 7), (7, 2, 3), (1, 1, 4)]
+        shapes += [(3, 3, 3, 3), (2, 2, 2, 6), (4, 1, 3, 2)]
     for s in shapes:
         targets = list(itertools.product(*[range(1, n + 1) for n in s]))
         if s == (40,):
@@ -441,9 +446,10 @@ def run(ctx):
     # C
     starts = [((4,), None), ((5,), (2,)), ((3, 4), None), ((3, 4), (1, 2)), ((4, 4), (0, 3)), ((3, 2, 3), None), ((3, 2, 3), (1, 1, 1))]
     if not ctx.quick:
-        starts += [((6,), (3,)), ((5, 4), (2, 2)), ((3, 3, 3, 2), None), ((3, 3, 3, 2), (1, 0, 2, 1))]
+        starts += [((6,), (3,)), ((5, 4), (2, 2)), ((3, 3, 3, 2), None), ((3, 3, 3, 2), (1, 0, 2, 1)),
+                   ((8,), None), ((8,), (0,)), ((6, 5), None), ((6, 5), (3, 0)), ((4, 3, 4), (2, 1, 2)), ((2, 3, 2, 3), (1, 1, 1, 1))]
     for s, mk in starts:
-        cases.append({'kind': 'bfs', 'from': s, 'masked': mk, 'depth': 3 if len(s) <= 2 or not ctx.quick else 2})
+        cases.append({'kind': 'bfs', 'from': s, 'masked': mk, 'depth': (3 if len(s) <= 2 else 2) if ctx.quick else (4 if len(s) <= 2 else 3)})
     # determinism self-test
     from mc.evidence import Collector
     a, b = Collector(), Collector()
